@@ -95,10 +95,10 @@ func genConfig(rng *simcore.RNG, env *simcore.Env) simcore.Op {
 		}
 	}
 	c["lens"] = lens
-	switch rng.Intn(3) {
-	case 0:
+	switch rng.Intn(5) {
+	case 0, 1:
 		c["max_txs_bytes"] = total + 10 // never binding
-	case 1:
+	case 2, 3:
 		c["max_txs_bytes"] = rng.Range(maxLen, total)
 	default:
 		c["max_txs_bytes"] = rng.Range(1, maxLen+3) // very tight
@@ -128,7 +128,7 @@ func genConfig(rng *simcore.RNG, env *simcore.Env) simcore.Op {
 	// application
 	c["vseed"] = rng.Intn(1 << 30)
 	c["p_reject"] = []int{0, 10, 30, 60}[rng.Intn(4)]
-	c["p_flip"] = []int{0, 15, 40}[rng.Intn(3)]
+	c["p_flip"] = []int{0, 20, 50, 80}[rng.Intn(4)]
 	c["replay_protect"] = rng.Bool(0.5)
 	c["senders"] = rng.Bool(0.4) // v1: application labels some txs with a sender
 	c["prios"] = []int{1, 2, 4}[rng.Intn(3)]
@@ -344,6 +344,8 @@ type track struct {
 	// update that could not be observed) and a new one was inserted. Its position in the defined
 	// order is unknown until it leaves the pool.
 	ambig bool
+	com   int64 // finished commits when it was seen entering the pool
+	reqEp int64 // finished commits when the admitting CheckTx was requested
 }
 
 type sim struct {
@@ -395,6 +397,7 @@ type sim struct {
 	admitEp  map[int]int64 // epoch of the request whose accepting response was delivered last
 	nUpdates int
 	commitErr error
+	pendingRm []int // cache removals of responses that are delivered but possibly not processed yet
 	tainted   bool // a known duplicate-class finding was hit: C12 oracles are off for the rest of the run
 	dupSuspect map[int]int // how often it was accepted again while in the pool
 }
@@ -768,7 +771,7 @@ func (s *sim) Next(rng *simcore.RNG) simcore.Op {
 		}
 	}
 	if !commitActive && s.mutexW == 0 {
-		w[2] = 7
+		w[2] = 9
 	}
 	if commitActive && s.commitParked.Load() {
 		w[3] = 30
@@ -1061,9 +1064,9 @@ func (s *sim) deliverHead() {
 			}
 		}
 		if !v.ok && !s.cfg.Bool("keep_invalid") {
-			// certain: an invalid transaction is dropped from the cache
-			s.lru.remove(r.txi)
-			delete(s.comRem, r.txi)
+			// certain: an invalid transaction is dropped from the cache (once the response is
+			// processed, which in v1 may have to wait for the mempool lock)
+			s.pendingRm = append(s.pendingRm, r.txi)
 		}
 	} else {
 		e.Count("probe.recheck_executed")
@@ -1073,8 +1076,7 @@ func (s *sim) deliverHead() {
 		if !v.ok {
 			e.Count("probe.recheck_rejects")
 			if !s.cfg.Bool("keep_invalid") {
-				s.lru.remove(r.txi)
-				delete(s.comRem, r.txi)
+				s.pendingRm = append(s.pendingRm, r.txi)
 			}
 		}
 	}
@@ -1149,6 +1151,14 @@ func (s *sim) commitFinished() bool {
 // own: they are put into a canonical order (any order is a legal socket arrival order).
 func (s *sim) absorb() {
 	finished := s.commitFinished()
+	if s.mutexW == 0 {
+		// every delivered response has been processed by now
+		for _, i := range s.pendingRm {
+			s.lru.remove(i)
+			delete(s.comRem, i)
+		}
+		s.pendingRm = nil
+	}
 	defer func() {
 		if finished {
 			// how many recheck responses belong to this update
@@ -1356,10 +1366,11 @@ func (s *sim) observe() {
 		if seen[i] && s.tracked[i] == nil {
 			s.seq++
 			v := s.admitV[i]
-			s.tracked[i] = &track{arr: s.seq, gas: v.gas, prio: v.prio}
+			s.tracked[i] = &track{arr: s.seq, gas: v.gas, prio: v.prio, com: s.commitsDone.Load(), reqEp: s.admitEp[i]}
 			e.Count("probe.admitted")
 		} else if seen[i] {
 			s.tracked[i].ambig = true
+			s.tracked[i].com, s.tracked[i].reqEp = s.commitsDone.Load(), s.admitEp[i]
 			e.Count("probe.ambiguous_readmission")
 		}
 	}
@@ -1411,7 +1422,14 @@ func (s *sim) observe() {
 		for _, i := range idx {
 			if !s.verdictAt(i, ver).ok {
 				e.Count("probe.stale_seen")
-				e.Fail("C12", s.vn+"-stale-tx-after-recheck", "%s: recheck is on, update and recheck for height %d are finished, yet tx%d, which the application rejects in its current state (version %d), is in the pool %v", s.vn, s.height, i, ver, idx)
+				t, done := s.tracked[i], s.commitsDone.Load()
+				if t.com >= done && t.reqEp < done {
+					// entered the pool after the last update although its check was requested before
+					// that commit finished
+					e.Fail("C12", s.vn+"-stale-tx-after-recheck-inflight", "%s: recheck is on, update and recheck for height %d are finished, yet tx%d, which the application rejects in its current state (version %d), is in the pool %v: its CheckTx was requested before that commit finished and took effect after the update", s.vn, s.height, i, ver, idx)
+				} else {
+					e.Fail("C12", s.vn+"-stale-tx-after-recheck", "%s: recheck is on, update and recheck for height %d are finished, yet tx%d, which the application rejects in its current state (version %d), is in the pool %v", s.vn, s.height, i, ver, idx)
+				}
 			}
 		}
 	}
